@@ -1953,7 +1953,8 @@ fn c18_server_part(rt: &FfiRuntime, thorough: bool) -> Stats {
             let want: Vec<u8> = match res {
                 None => vec![pdu[0] | 0x80, 1],
                 Some((true, _, _)) => pdu[..5].to_vec(),
-                Some((false, e, raw)) => vec![pdu[0] | 0x80, u8::from(named_exception(e, raw))],
+                // the C enum's values are the Modbus numbers of the named exceptions (255: raw)
+                Some((false, e, raw)) => vec![pdu[0] | 0x80, if e == 255 { raw } else { e as u8 }],
             };
             st.class(match res {
                 None => "write-callback-not-set",
